@@ -57,6 +57,39 @@ Fixpoint ival_eqb (a b : fival) : bool :=
   | _, _ => false
   end.
 
+(* ---- the CURRENT code for tuple members (known finding C01 arith-member-in-tuple):
+   TuplePrior.value_for_arguments builds the tuple from prior_tuples + instance_tuples only, so a member
+   that is neither a Prior nor a float (an arithmetic prior) is silently left out.  `prune` removes such
+   members; ModelTree.inst itself describes the repaired behaviour (every member is evaluated). ---- *)
+Fixpoint prune (n : fnode) : fnode :=
+  match n with
+  | NTuple ms =>
+      NTuple ((fix go (ms : list (string * (nat * fnode))) : list (string * (nat * fnode)) :=
+                 match ms with
+                 | [] => []
+                 | (k, (i, c)) :: ms' =>
+                     match c with
+                     | NPrior _ | NConst _ => (k, (i, c)) :: go ms'
+                     | _ => go ms'
+                     end
+                 end) ms)
+  | NModel cls ctor attrs =>
+      NModel cls ctor ((fix go (a : list (string * fnode)) : list (string * fnode) :=
+                          match a with [] => [] | (k, c) :: a' => (k, prune c) :: go a' end) attrs)
+  | NColl attrs =>
+      NColl ((fix go (a : list (string * fnode)) : list (string * fnode) :=
+                match a with [] => [] | (k, c) :: a' => (k, prune c) :: go a' end) attrs)
+  | _ => n
+  end.
+
+(* unit-vector route with the priors' value_for given as a finite table (the implementation's
+   vector_from_unit_vector output, in advertised order) *)
+Definition table_value_for (ids : list nat) (tab : list float) (q : nat) (_ : float) : float :=
+  match zip_args float ids tab q with Some v => v | None => PrimFloat.zero end.
+
+Definition opt_ival_eqb (a : fival) (b : option fival) : bool :=
+  match b with Some y => ival_eqb a y | None => true end.
+
 Record case := {
   c_tree : fnode;
   c_vec : list float;
@@ -65,14 +98,23 @@ Record case := {
   c_count : nat;                (* model.prior_count *)
   c_ids : list nat;             (* priors_ordered_by_id, as creation indices *)
   c_inst : fival;               (* instance_from_vector(vec) *)
-  c_inst_paths : fival          (* instance_from_path_arguments({unique path i: vec[i]}) *)
+  c_pv : list (path * float);   (* the path arguments supplied, in dict order (any paths, several per prior) *)
+  c_inst_paths : fival;         (* instance_from_path_arguments(dict c_pv) *)
+  c_unit_vec : list float;      (* vector_from_unit_vector(u): table of value_for *)
+  c_inst_unit : option fival;   (* instance_from_unit_vector(u); None when it (and the vector) raised *)
+  c_cmp_inst : bool;            (* false: instances not compared (division by zero, int member of a tuple) *)
+  c_prune : bool                (* true: current-code view of tuples (known finding), see prune *)
 }.
 
 Definition check_case (c : case) : bool :=
   let n := c_tree c in
+  let m := if c_prune c then prune n else n in
+  let ids := ordered_ids float n in
   list_eqb path_eqb (paths float n) (c_paths c)
   && list_eqb path_eqb (unique_prior_paths float n) (c_upaths c)
   && Nat.eqb (prior_count float n) (c_count c)
-  && list_eqb Nat.eqb (ordered_ids float n) (c_ids c)
-  && ival_eqb (inst_from_vector float fbin n (c_vec c)) (c_inst c)
-  && ival_eqb (inst_from_paths float fbin n (combine (c_upaths c) (c_vec c))) (c_inst_paths c).
+  && list_eqb Nat.eqb ids (c_ids c)
+  && (negb (c_cmp_inst c) ||
+      ival_eqb (inst float fbin (zip_args float ids (c_vec c)) m) (c_inst c)
+      && ival_eqb (inst float fbin (path_args float n (c_pv c)) m) (c_inst_paths c)
+      && opt_ival_eqb (inst float fbin (zip_args float ids (c_unit_vec c)) m) (c_inst_unit c)).
